@@ -11,7 +11,7 @@ CHECKS = {
          'Every cut position of six short server streams, plus seeded scenarios over threshold {none,-1,0,1,2,16,64,256,1024} x cipher on/off x up to 25 clientbound frames (sizes around threshold-1/threshold/threshold+1, unknown ids, up to 8 KiB) and up to 12 written packets, delivered as whole frames, 1-byte reads, tape-chosen partitions or long-paused cuts; payload sizes include the frame-length VarInt boundaries; write sequences contain forced writes that fail during serialisation; 20% of the cases run a second session with its own framing mode on the same Connection (after disconnect(), or started by the exception handler after a server-side drop). Oracle: the early-listener log equals the sent (id, fields) sequence; the independent server parse of the client stream equals the written (id, payload) sequence; written frames are acceptable to a vanilla decoder and compressed above the threshold.',
          'DESIGN.md 3/C01'),
  'C09': ('exploration', 'seeded configuration x server-behaviour search under deterministic simulation against a pure reference function',
-         'Seeded allowed-version sets (all/singleton/pair/prefix/few/invalid; names or numbers) x default version x call (connect, status with 3x3 handler modes) x server status behaviour (allowed/disallowed/unsupported/unknown protocol, missing version/protocol, {}, FIN on accept, FIN after request); thorough sweeps every supported protocol as the server reply. Expected TCP connections, handshake fields, login-start name, delivered error (type, named version, wording) and status handler/ping/latency/exit behaviour come from a reference function that shares only the version tables with pyCraft.',
+         'Seeded allowed-version sets (all/singleton/pair/prefix/few/invalid; names or numbers) x default version x call (connect, status with 3x3 handler modes) x server status behaviour (allowed/disallowed/unsupported/unknown protocol, missing version/protocol, {}, FIN on accept, FIN after request); thorough sweeps every supported protocol as the server reply. Expected TCP connections, handshake fields, login-start name, delivered error (type, named version, wording) and status handler/ping/latency/exit behaviour come from a reference function that shares only the version tables with pyCraft. Faults: refused login connect, failing sends to an early closer, segmentation, wall-clock steps between two readings (30% of the runs).',
          'DESIGN.md 3/C09'),
  'C10': ('exploration', 'seeded login-script search (grammar of optional steps) under deterministic simulation, independent RSA/CFB8/zlib server and session-service stub',
          'Seeded server scripts [compress]? [encrypt]? [compress]? with plugin requests at any position, ending in success or a disconnect at any point; thresholds {0,1,64,256,2^31-1}; 1024/2048-bit keys; token sizes 1..64; server ids; with/without auth token and join replies incl. errors; optional user plugin listener; in 30% of the cases a second login on the same Connection (by the user or by the exception handler); protocols either side of 385/391/707; segmentation. The independent server checks the clear-text response, both RSA blobs, CFB8 on all later bytes, framing discipline after set-compression, exactly one answer per plugin request, the join payload and hash, play entry, and the surfaced error for disconnects and failed joins.',
@@ -35,7 +35,7 @@ CHECKS = {
          'Exhaustive placement of one forced context switch at every choice point of small two-writer scenarios, then seeded search (random walk and PCT-style priorities) over interleavings of 1-4 writer threads (also: bursts of 301-650 queued packets, and a second Connection object with its own writers in the same process), the networking thread and a final disconnect, with pre-emption at every source line (or bytecode) of connection.py/packet.py/encryption.py and at every lock and socket call; the independent server parses (and decrypts) the byte stream and checks whole frames, at-most/exactly-once tags, per-thread queue order, flush-before-close and nothing-after-immediate-disconnect over the global event order. Sampling, not enumeration: a clean batch is evidence for the explored schedules only.',
          'DESIGN.md 3/C12'),
  'C15': ('fault_enumeration', 'crash-point enumeration under deterministic simulation (FIN after every byte offset of reference conversations) + bounded-liveness oracle',
-         'Every prefix length 0..N of the server stream of each reference conversation (status call, status-then-login on either connection, login with compression, with encryption, with both, plain play; 2 (quick) / all boundary protocol versions (thorough), incl. a default version outside the allowed set) is executed, followed by FIN (thorough also RST); the run must end within a bounded number of I/O operations after EOF (spin detector, deadlock detector on the virtual clock), report an error or take the documented status fallback, and deliver only completely sent packets. Exhaustive over the listed conversations, not over all conversations.',
+         'Every prefix length 0..N of the server stream of each reference conversation (status call, status-then-login on either connection, login with compression, with encryption, with both, plain play; 2 (quick) / all boundary protocol versions (thorough), incl. a default version outside the allowed set) is executed, followed by FIN, by RST, and once more in a process whose descriptor numbers lie beyond the range of select() (a failing system call: ValueError); the run must end within a bounded number of I/O operations after EOF (spin detector, deadlock detector on the virtual clock), report an error or take the documented status fallback, and deliver only completely sent packets. Exhaustive over the listed conversations, not over all conversations.',
          'DESIGN.md 3/C15'),
  'C16': ('exploration', 'enumerated + seeded call histories x seeded schedule search under deterministic simulation, linearizability-style refusal windows',
          'All single-thread histories of length <= 3 over {connect,status,disconnect,disconnect(immediate)} x 5 server line-ups are enumerated under several schedules each and under every placement of one forced context switch at I/O granularity; longer and two-thread histories with reconnecting listeners/handlers against accepting, refusing, disconnecting, cutting and resetting servers are sampled. Oracles over the global event order: disconnect never raises, I/O intervals of networking threads never overlap, refusal required/forbidden/either windows, accepted connect is usable (condition-based keep-alive probe), disconnect sticks, no stale-thread action on a newer session, sessions started from listeners/handlers come up, bounded termination. Servers may compress, stall, linger in callbacks; hand-over stress family. Three genuine defects are listed in known_findings.json.',
@@ -97,7 +97,7 @@ def main():
         }],
         'checks': checks,
         'not_applicable': na,
-        'notes': 'Genuine defects repaired in /repo by fix: commits d23e0de, b8b77d4, 566fb9b, 4765f55, e19479c (see known_findings.json and DESIGN.md 12); three further genuine C16 defects are recorded as known findings.',
+        'notes': 'Genuine defects repaired in /repo by fix: commits d23e0de, b8b77d4, 566fb9b, 4765f55, e19479c, 8c5a6ae (see known_findings.json and DESIGN.md 12); three further genuine C16 defects are recorded as known findings.',
     }
     with open(os.path.join(V, 'MANIFEST.json'), 'w') as f:
         json.dump(m, f, indent=1)
